@@ -9,16 +9,9 @@ open Gzx
 def tok (set unset : List Nat) (b : Bool) : List Nat := if b then set else unset
 
 /-- token strings that can be told apart by their first byte and are not line breaks -/
-structure GoodToks (set unset : List Nat) : Prop where
-  c : Nat
-  d : Nat
-  set' : List Nat
-  unset' : List Nat
-  hset : set = c :: set'
-  hunset : unset = d :: unset'
-  hcd : c ≠ d
-  hc : c ≠ 10 ∧ c ≠ 13
-  hd : d ≠ 10 ∧ d ≠ 13
+def GoodToks (set unset : List Nat) : Prop :=
+  ∃ c d set' unset', set = c :: set' ∧ unset = d :: unset' ∧ c ≠ d ∧
+    (c ≠ 10 ∧ c ≠ 13) ∧ (d ≠ 10 ∧ d ≠ 13)
 
 theorem isPrefixOf_self_append (p rest : List Nat) : p.isPrefixOf (p ++ rest) = true := by
   induction p with
@@ -36,7 +29,7 @@ theorem parseLoop_cell (set unset : List Nat) (g : GoodToks set unset) (total fu
   | true =>
     have ht : tok set unset true ++ rest = c :: (set' ++ rest) := by simp [tok, hset]
     rw [ht]
-    unfold parseLoop
+    conv => lhs; unfold parseLoop
     rw [if_neg (by omega)]
     have hp : set.isPrefixOf (c :: (set' ++ rest)) = true := by
       rw [← ht]; exact isPrefixOf_self_append set rest
@@ -47,7 +40,7 @@ theorem parseLoop_cell (set unset : List Nat) (g : GoodToks set unset) (total fu
   | false =>
     have ht : tok set unset false ++ rest = d :: (unset' ++ rest) := by simp [tok, hunset]
     rw [ht]
-    unfold parseLoop
+    conv => lhs; unfold parseLoop
     rw [if_neg (by omega)]
     have hp1 : set.isPrefixOf (d :: (unset' ++ rest)) = false := by
       rw [hset]; simp [List.isPrefixOf, hcd]
@@ -62,6 +55,14 @@ theorem tok_length_pos (set unset : List Nat) (g : GoodToks set unset) (b : Bool
     1 ≤ (tok set unset b).length := by
   obtain ⟨c, d, set', unset', hset, hunset, _, _, _⟩ := g
   cases b <;> simp [tok, hset, hunset]
+
+theorem flatMap_tok_length (set unset : List Nat) (g : GoodToks set unset) (r : List Bool) :
+    r.length ≤ (r.flatMap (tok set unset)).length := by
+  induction r with
+  | nil => simp
+  | cons b r ih =>
+    have := tok_length_pos set unset g b
+    simp only [List.flatMap_cons, List.length_append, List.length_cons]; omega
 
 /-- one row of cells -/
 theorem parseLoop_row (set unset : List Nat) (g : GoodToks set unset) (total : Nat) (r : List Bool) :
@@ -136,8 +137,10 @@ theorem parseLoop_rows (set unset : List Nat) (g : GoodToks set unset) (total w 
       simp only [List.singleton_append]
       unfold parseLoop
       rw [if_pos (Or.inl rfl)]
-      generalize hst1 : ({ st with bitsRev := r.reverse ++ st.bitsRev,
-        bitsPos := st.bitsPos + r.length } : ParseSt) = st1
+      obtain ⟨st1, hst1'⟩ : ∃ st1 : ParseSt, st1 =
+          { st with bitsRev := r.reverse ++ st.bitsRev, bitsPos := st.bitsPos + r.length } := ⟨_, rfl⟩
+      have hst1 := hst1'.symm
+      rw [hst1]
       have hb1 : st1.bitsPos = st.bitsPos + w := by rw [← hst1, hrw]
       have hs1 : st1.rowStartPos = st.bitsPos := by rw [← hst1]; exact hstart
       have hl1 : st1.rowLength = st.rowLength := by rw [← hst1]
@@ -160,8 +163,11 @@ theorem parseLoop_rows (set unset : List Nat) (g : GoodToks set unset) (total w 
       rw [e1]
       simp only
       obtain ⟨st', k1, k2, k3, k4, k5, k6⟩ := ih (fun r' hr' => hlen r' (by simp [hr'])) fuel1 st2
-        (by omega) (by rw [e3, hb1]; rw [hrw] at hcap; simp only [List.length_append,
-          List.length_cons, List.length_nil] at hcap; omega)
+        (by omega) (by
+          have := flatMap_tok_length set unset g r
+          rw [e3, hb1]
+          simp only [List.length_cons, List.length_nil] at hcap
+          omega)
         (by rw [e4, e3]) (Or.inr e5)
       refine ⟨st', k1, ?_, ?_, k4, ?_, ?_⟩
       · rw [k2, e2, hr1]; simp
@@ -176,16 +182,16 @@ theorem chunks_flatten (w : Nat) (rows : List (List Bool)) (hl : ∀ r ∈ rows,
   | nil => rfl
   | cons r rows ih =>
     have hr : r.length = w := hl r (by simp)
+    have ih' := ih (fun r' hr' => hl r' (by simp [hr']))
     rw [List.length_cons, List.range_succ_eq_map, List.map_cons, List.map_map]
     congr 1
     · simp [hr]
-    · rw [← ih (fun r' hr' => hl r' (by simp [hr']))]
+    · conv => rhs; rw [← ih']
       apply List.map_congr_left
       intro y _
-      simp only [Function.comp, List.flatten_cons]
-      have : (y + 1) * w = r.length + y * w := by rw [Nat.add_mul, Nat.one_mul, hr]; omega
-      rw [this, ← List.drop_drop, List.drop_left]
-      rw [ih (fun r' hr' => hl r' (by simp [hr']))]
+      simp only [Function.comp, List.flatten_cons, Nat.succ_eq_add_one]
+      have e : (y + 1) * w = r.length + y * w := by rw [Nat.add_mul, Nat.one_mul, hr]; omega
+      rw [e, ← List.drop_drop, List.drop_left]
 
 theorem flatten_length (w : Nat) (rows : List (List Bool)) (hl : ∀ r ∈ rows, r.length = w) :
     rows.flatten.length = rows.length * w := by
